@@ -146,7 +146,7 @@ func genScenario(t *rapid.T, s *rt.Spec, d domain) *rt.Scenario {
 			if prob(t, "goexit", d.goexit) {
 				o.K = rt.OGoexit
 			} else if prob(t, "panic", d.panics) {
-				o.K, o.PV = rt.OPanic, uniform(t, "pv", 9)
+				o.K, o.PV = rt.OPanic, uniform(t, "pv", 11)
 			} else {
 				o.K, o.EV = rt.OErr, []int{0, 0, 0, 0, 1, 2, 3, 3, 4, 5}[uniform(t, "ev", 10)]
 			}
@@ -159,7 +159,7 @@ func genScenario(t *rapid.T, s *rt.Spec, d domain) *rt.Scenario {
 			switch {
 			case faulty && prob(t, "predpanic", d.predPanic):
 				scn.Pred[u] = rt.PPanic
-				scn.Out[u].PV = uniform(t, "pv", 9)
+				scn.Out[u].PV = uniform(t, "pv", 11)
 			case prob(t, "predfalse", d.predFalse):
 				scn.Pred[u] = rt.PFalse
 			}
@@ -305,7 +305,7 @@ func genScenario(t *rapid.T, s *rt.Spec, d domain) *rt.Scenario {
 			for i := range scn.Elems {
 				scn.Elems[i].O = rt.Outcome{T: scn.Elems[i].O.T, D: scn.Elems[i].O.D}
 			}
-			scn.Out[a].K, scn.Out[a].PV = rt.OPanic, uniform(t, "pfpv", 9)
+			scn.Out[a].K, scn.Out[a].PV = rt.OPanic, uniform(t, "pfpv", 11)
 			if s.UnitCanErr()[b] && prob(t, "pfberr", 0.7) {
 				scn.Out[b].K = rt.OErr
 			} else {
